@@ -409,6 +409,21 @@ def _inline_in_body(body: List[ast.stmt], resolve, depth=0) -> bool:
         if isinstance(st, ast.Try):
             for h in st.handlers:
                 changed |= _inline_in_body(h.body, resolve, depth + 1)
+        # `x = a or helper(...)`: spelled out as `x = a; if not x: x = helper(...)` so that the helper call becomes a statement
+        if isinstance(st, ast.Assign) and len(st.targets) == 1 and isinstance(st.targets[0], ast.Name) and isinstance(st.value, ast.BoolOp) \
+                and isinstance(st.value.op, ast.Or) and isinstance(st.value.values[-1], ast.Call) and resolve(st.value.values[-1]) is not None \
+                and not any(isinstance(n, ast.Name) and n.id == st.targets[0].id for v in st.value.values for n in ast.walk(v)):
+            tgt = st.targets[0].id
+            head_vals = st.value.values[:-1]
+            head = head_vals[0] if len(head_vals) == 1 else ast.BoolOp(op=ast.Or(), values=head_vals)
+            first = ast.copy_location(ast.Assign(targets=[ast.Name(id=tgt, ctx=ast.Store())], value=head), st)
+            inner = ast.copy_location(ast.Assign(targets=[ast.Name(id=tgt, ctx=ast.Store())], value=st.value.values[-1]), st)
+            cond = ast.copy_location(ast.If(test=ast.UnaryOp(op=ast.Not(), operand=ast.Name(id=tgt, ctx=ast.Load())), body=[inner], orelse=[]), st)
+            for x in (first, cond):
+                ast.fix_missing_locations(x)
+            body[i:i + 1] = [first, cond]
+            changed = True
+            continue
         # the expression part of this statement that is evaluated exactly once, before the statement's own effect
         exprs: List[ast.AST] = []
         if isinstance(st, (ast.Assign, ast.AnnAssign, ast.AugAssign, ast.Return, ast.Expr)):
